@@ -38,3 +38,77 @@ Inductive gsniff :=
          if isObject { it, err := ItemTyperFunc(typ); ...; switch it.GetType() {..}; return it, err } *)
 | GSFail (pos : bytes)                                  (* return nil, errors.New(..) *)
 | GSUnrecognised (src pos : bytes).
+
+(* ------------------------------------------------------------------ one-call leaf codecs (builder b43)
+   The GobEncode / GobDecode methods of the leaf types (IRI, ActivityVocabularyType, MimeType, LangRef,
+   Content, NaturalLanguageValues, LangRefValue, IRIs) and the one-call helpers of encoding_gob.go /
+   decoding_gob.go (gobEncodeInt64 .., gobEncodeStringLikeType, gobDecodeInt64 .., gobDecodeDuration,
+   gobDecodeNaturalLanguageValues, gobDecodeEndpoints), statement by statement, in source order
+   (Gen/GobW.gobw_codecs, Gen/GobR.gobr_codecs).  A statement of any other shape is an Unrecognised entry. *)
+Inductive glw :=
+| LwRetEmptyIfLen0 (sels : list bytes) (pos : bytes)
+      (* if len(x) == 0 { return []byte{}, nil }            sels = [""]
+         if len(x.A) == 0 && len(x.B) == 0 { return .. }     sels = ["A"; "B"] *)
+| LwRetRaw (pos : bytes)                         (* return []byte(x), nil *)
+| LwBuffer (pos : bytes)                         (* b := bytes.Buffer{}  |  b := new(bytes.Buffer) *)
+| LwEncoder (pos : bytes)                        (* gg := gob.NewEncoder(&b)  |  gob.NewEncoder(b) for a pointer *)
+| LwMkKvs (k v : bytes) (pos : bytes)
+      (* mm := make([]kv, len(x)); for i, l := range x { mm[i] = kv{K: []byte(l.<k>), V: l.<v>} } *)
+| LwMkKv (k v : bytes) (pos : bytes)             (* mm := kv{K: []byte(x.<k>), V: []byte(x.<v>)} *)
+| LwMkByteList (pos : bytes)
+      (* bb := make([][]byte, 0); for _, e := range x { bb = append(bb, []byte(e)) } *)
+| LwEncode (via src : bytes) (pos : bytes)
+      (* if err := gg.Encode(S); err != nil { return nil, err }                       via = "Encode"
+         if err := gobEncodeStringLikeType(gg, S); err != nil { return nil, err }     via = the helper's name
+         src: "local" (the value built before), "recv" (x, or []byte(x)) *)
+| LwRetBuffer (pos : bytes)                      (* return b.Bytes(), nil *)
+| LwHelperEncode (pos : bytes)                   (* if err := g.Encode(s); err != nil { return err }   (the helper itself) *)
+| LwHelperRetNil (pos : bytes)                   (* return nil *)
+| LwUnrecognised (src pos : bytes).
+
+Inductive glr :=
+| LrRetNilIfEmpty (pos : bytes)                  (* if len(data) == 0 { return nil } *)
+| LrStoreRaw (pos : bytes)                       (* *x = T(data) *)
+| LrDeclare (how ty : bytes) (pos : bytes)
+      (* a local of Go type T: var L T ("var") | L := make(T, 0) ("make0") | L := T{} ("lit") | L := new(T) ("new", ty = "*T") *)
+| LrDecoder (pos : bytes)                        (* g := gob.NewDecoder(bytes.NewReader(data)) *)
+| LrDecodeLocal (pos : bytes)
+      (* if err := gob.NewDecoder(bytes.NewReader(data)).Decode(&L); err != nil { return err }
+         err = gob.NewDecoder(bytes.NewReader(data)).Decode(&L); if err != nil { return err }   (two statements) *)
+| LrTryDecodeRecv (pos : bytes)
+      (* err := gob.NewDecoder(bytes.NewReader(data)).Decode(x); if err == nil { return nil }   (two statements) *)
+| LrStoreLocal (pos : bytes)                     (* *x = T(L)  |  *x = L *)
+| LrAppendKvs (ref val : bytes) (pos : bytes)
+      (* for _, m := range L { *x = append( *x, LangRefValue{Ref: LangRef(m.<ref>), Value: m.<val>}) } *)
+| LrStoreKv (field part : bytes) (pos : bytes)   (* x.<field> = T(L.<part>)  |  x.<field> = L.<part> *)
+| LrAppendStrs (pos : bytes)                     (* for _, b := range L { *x = append( *x, IRI(b)) } *)
+| LrRetNil (pos : bytes)                         (* return nil *)
+| LrRetDecodeParam (ty : bytes) (pos : bytes)     (* return g.Decode(p), p *T     (helper: decode into the pointer parameter) *)
+| LrDecodeLocalErr (pos : bytes)                 (* err := gob.NewDecoder(bytes.NewReader(data)).Decode(&L)   (helper) *)
+| LrMethodDecode (callee : bytes) (pos : bytes)  (* err := L.GobDecode(data)     (helper: the method of the local's type) *)
+| LrRetLocalErr (pos : bytes)                    (* return L, err                (helper) *)
+| LrUnrecognised (src pos : bytes).
+
+(* gobEncodeItem, statement group by statement group (Gen/GobW.gob_enc_item) *)
+Inductive genc_stmt :=
+| GENilEmpty (pos : bytes)                       (* if IsNil(it) { return []byte{}, nil } *)
+| GEIriBlock (byvalue byptr fallback : bool) (pos : bytes)
+      (* if IsIRI(it) { [if i, ok := it.(IRI); ok { return []byte(i), nil }]      byvalue
+                        [if i, ok := it.( *IRI); ok { return []byte( *i), nil }]   byptr
+                        [return []byte{}, nil] }                                  fallback *)
+| GEBuffer (pos : bytes)                         (* b := bytes.Buffer{}; var err error *)
+| GEOn (pred on callee : bytes) (pos : bytes)
+      (* if <pred>(it) { err = <on>(it, func(p *T) error { bytes, err := <callee>; b.Write(bytes); return err }) } *)
+| GESwitch (pred : bytes) (pos : bytes)
+      (* if <pred>(it) { switch it.GetType() { .. } }      the cases are Gen/Switches.sw_gobEncodeItem *)
+| GEReturn (pos : bytes)                         (* return b.Bytes(), err *)
+| GEUnrecognised (src pos : bytes).
+
+(* what ItemTyperFunc = GetItemByType creates for a case of its switch (Gen/GobR.gob_typer_presets):
+   the fields the expression of the case sets, with what *)
+Inductive gpreset :=
+| GPType (pos : bytes)                           (* Type: typ *)
+| GPNlvNew (f : fid) (pos : bytes)               (* o.F = NaturalLanguageValuesNew() *)
+| GPTypeDefault (list_name : bytes) (names : list bytes) (dflt : bytes) (pos : bytes)
+      (* if !(L.Contains(typ)) { typ = D }: a name outside the list L (its elements: names) is replaced by D *)
+| GPUnrecognised (src pos : bytes).
